@@ -8,13 +8,11 @@ re_newline = re.compile(r'\r\n|\r|\n')
 
 def split_lines(text: str):
     """
-    Splits given text by lines like `str.splitlines()` does, but at `\\r\\n`, `\\r`
-    and `\\n` only: any other Unicode separator is a regular character of the text
+    Splits given text by lines at `\\r\\n`, `\\r` and `\\n` only: any other Unicode
+    separator is a regular character of the text. A line break at the very end of
+    the text is followed by a last, empty line
     """
-    lines = re_newline.split(text)
-    if lines[-1] == '':
-        lines.pop()
-    return lines
+    return re_newline.split(text)
 
 class OutputStream:
     __slots__ = ('options', '_value', 'level', 'offset', 'line', 'column')
